@@ -883,6 +883,26 @@ func (g *Gen) ret(b *ssa.BasicBlock, x *ssa.Return, h Heap, guard string) {
 	if g.FT != nil {
 		g.bindFunctypeParams(env)
 		post(g.FT, "functype")
+		if name, ok := g.P.ExecName[g.Fn]; ok {
+			for _, ec := range g.FT.EnsuresExcept {
+				skip := false
+				for _, n := range ec.Names {
+					if strings.EqualFold(strings.TrimSpace(n), name) {
+						skip = true
+					}
+				}
+				if skip {
+					continue
+				}
+				c := ec.Clause
+				t, err := env.evalBool(c.Expr)
+				if err != nil {
+					g.unsupported("%s:%d: ensures_except %q: %v", shortFile(c.File), c.Line, c.Text, err)
+					continue
+				}
+				g.oblige("post", c.Text, c.Text, guard, t, x.Pos())
+			}
+		}
 	}
 	if g.FC != nil {
 		post(g.FC, "")
